@@ -47,6 +47,11 @@ func (b Bound) Extend(point Point) Bound {
 		return b
 	}
 
+	// nothing included yet: the empty bound's own corners must not leak in
+	if b.IsEmpty() {
+		return Bound{Min: point, Max: point}
+	}
+
 	return Bound{
 		Min: Point{
 			math.Min(b.Min[0], point[0]),
